@@ -295,6 +295,14 @@ def estimator_passthrough(est, Q, Qn, rs_seed, dom):
                             shape=list(np.shape(S))))
         elif np.isnan(S).any() or any(int(S[i, v]) not in dom[v] for i in range(len(S)) for v in dom):
             bad.append(dict(what=f"sample(n={n}) leaves NaNs or leaves the domain"))
+    from deeprob.spn.structure.leaf import Bernoulli as _Be, Categorical as _Ca
+    disc_vars = {int(o.scope[0]) for o in G.post_order(est.spn_) if isinstance(o, (_Be, _Ca))}
+    ddom = {v: d for v, d in dom.items() if v in disc_vars}
+    ev = [v for v in sorted(ddom) if v < nf and not np.isnan(Q[0, v])][:1]
+    if ev:
+        pb = law_check(lambda B: est.sample(X=B), est.spn_, nf, {ev[0]: float(Q[0, ev[0]])}, ddom, "estimator sample(X=[row]*N)")
+        if pb:
+            bad.append(pb)
     B0 = Qn.copy()
     np.random.seed(rs_seed + 1)
     S = est.sample(X=Qn)
@@ -313,10 +321,50 @@ def estimator_passthrough(est, Q, Qn, rs_seed, dom):
     return bad
 
 
-def classifier_sampling(clf, classes, rs, rs_seed):
+def law_check(draw, spn, width, evid, dom, what, N=3000):
+    """N conditional draws through the facade on a HOMOGENEOUS batch (every row carries the evidence `evid`) against the wrapped
+    circuit's own conditional marginals P(x_v = a | evid) = L(evid, x_v = a) / L(evid) of up to three discrete variables; the
+    radius is Hoeffding's with a union bound over all cells at confidence 1 - 1e-10.  Returns a problem or None."""
+    from deeprob.spn.algorithms.inference import likelihood
+    free = [v for v in sorted(dom) if v not in evid and v < width and 2 <= len(dom[v]) <= 6][:3]
+    if not free:
+        return None
+    base = np.full((1, width), np.nan, dtype=np.float32)
+    for v, a in evid.items():
+        base[0, v] = a
+    with np.errstate(all="ignore"):
+        den = float(likelihood(spn, base.copy()).reshape(-1)[0])
+    if not den > 1e-6:
+        return None
+    S = np.asarray(draw(np.tile(base, (N, 1))), dtype=np.float64)
+    if S.shape != (N, width):
+        return dict(what=f"{what}: wrong shape", shape=list(S.shape))
+    cells = sum(len(dom[v]) for v in free)
+    eps = math.sqrt(math.log(2.0 * cells / 1e-10) / (2.0 * N))
+    for v in free:
+        rows = []
+        for a in dom[v]:
+            r = base.copy(); r[0, v] = a; rows.append(r[0])
+        with np.errstate(all="ignore"):
+            pcond = likelihood(spn, np.array(rows, dtype=np.float32)).reshape(-1).astype(np.float64) / den
+        f = np.array([float(np.mean(S[:, v] == a)) for a in dom[v]])
+        if np.abs(f - pcond).max() > eps:
+            j = int(np.argmax(np.abs(f - pcond)))
+            return dict(what=f"{what}: conditional samples do not follow the wrapped circuit's conditional distribution",
+                        evidence={int(k_): float(a_) for k_, a_ in evid.items()}, variable=int(v), value=int(dom[v][j]),
+                        frequency=float(f[j]), circuit_conditional=float(pcond[j]), draws=N, radius=float(eps))
+    return None
+
+
+def classifier_sampling(clf, classes, rs, rs_seed, dom=None):
     from deeprob.spn.algorithms.sampling import sample
     bad = []
     nf = clf.n_features_
+    if dom:
+        for c in list(classes)[:2]:
+            pb = law_check(lambda B: clf.sample(y=B[:, nf].copy()), clf.spn_, nf + 1, {nf: float(c)}, dom, f"classifier sample(y=[{c}]*N)")
+            if pb:
+                bad.append(pb); break
     for n in (None, 1, 4):
         np.random.seed(rs_seed)
         S = clf.sample(n) if n is not None else clf.sample()
@@ -467,7 +515,7 @@ def main(tier, seed, replay=None):
                 dist["rows"] += size
                 dist["batch_eq_classes" if size == k else "batch_ne_classes"] += 1
                 dist["batches_with_nan"] += int(nans)
-        for p in classifier_sampling(clf, classes, rs, seed % 1000 + i):
+        for p in classifier_sampling(clf, classes, rs, seed % 1000 + i, {v: d for v, d in dom.items() if v not in cont}):
             viol("classifier-sampling", dict(info, problem=p))
         if names:
             text = "\n".join(HEADER + [f"Definition t{i} : qtable :=\n  {tab.coq()}.", f"Definition d{i} := {doms_coq(dom)}."] + body +
